@@ -18,9 +18,9 @@ CHECKS["C01"] = dict(
     technique='Coq proof (lexer and parser totality) + extraction-based correspondence + direct totality search',
     design="4/C01")
 CHECKS["C09"] = dict(
-    text="Coq theorems: the lexer model (written from the lexical grammar) tiles every accepted source into ignored-only gaps and non-empty lexemes with ordered, disjoint, in-bounds spans; the parser model's result depends only on the significant-token sequence (C09_parse_independent_of_layout), a source the lexer rejects is rejected by the parser, and the token limit is exact (accepts n tokens, rejects n+1; C09_token_limit); the implementation's character-class/punctuator/ignored/line-terminator tables are re-swept on every run and proved equal to the specification's; implementation lexer = model on all short strings and generated sources (kinds, spans, values, lines/columns, reject positions); parser = model on token-alphabet sequences and generated documents incl. max_tokens n-1/n/n+1; strip/insert laws checked directly",
-    note="lexer and parser modelled and proved; strip_ignored_characters itself is a metamorphic check on the implementation (its block-string re-printing is covered by C08's block theorems)",
-    technique='Coq proof (lexer spans, parser layout independence and token limit, regenerated table obligations) + extraction-based correspondence + metamorphic checks',
+    text="Coq theorems: the lexer model (written from the lexical grammar) tiles every accepted source into ignored-only gaps and non-empty lexemes with ordered, disjoint, in-bounds spans; the parser model's result depends only on the significant-token sequence (C09_parse_independent_of_layout), a source the lexer rejects is rejected by the parser, and the token limit is exact (accepts n tokens, rejects n+1; C09_token_limit); the implementation's character-class/punctuator/ignored/line-terminator tables are re-swept on every run and proved equal to the specification's; implementation lexer = model on all short strings and generated sources (kinds, spans, values, lines/columns, reject positions); parser = model on token-alphabet sequences and generated documents incl. max_tokens n-1/n/n+1; strip_ignored_characters is modelled (Lang/Strip.v) and proved for every code-point list: the stripped text lexes to the same significant (kind, value) tokens, stripping is idempotent, unlexable sources are rejected at the same position and nothing else is, the output is tight (no comment, no ignored character outside string lexemes except exactly the rule's single spaces), and it parses to the same tree (C09_strip_*); implementation strip = extracted model on all strings <=4/5 over the 16-symbol alphabet, generated documents with random ignored insertions and a block-string family (exact text or error position); ignored-sequence insertion laws checked directly",
+    note="lexer, parser and strip_ignored_characters modelled and proved (block-string re-printing incl. surrogate pairs: Lang/StripBlock.v); the relation between the model's eager token loop and the implementation's lazy lexing with incremental concatenation is tied by exact-output correspondence; insertion of ignored sequences remains a metamorphic check on the implementation, proved at token level by C09_parse_independent_of_layout",
+    technique='Coq proof (lexer spans, parser layout independence and token limit, strip laws, regenerated table obligations) + extraction-based correspondence + metamorphic checks',
     design="4/C09")
 
 CHECKS["C11"] = dict(
@@ -122,13 +122,13 @@ NOT_YET = {}
 
 
 MODELS = {"C01": ["lang", "parser"], "C03": ["errorsalg"], "C04": ["incr", "defer"], "C07": ["subscribe", "exec"], "C08": ["lang", "blockstring", "parser"],
-          "C09": ["lang", "parser"], "C10": ["lang"], "C11": ["lang", "visitm"], "C12": ["compose", "rules"], "C14": ["overlap"], "C15": ["coerce"],
+          "C09": ["lang", "parser", "strip"], "C10": ["lang"], "C11": ["lang", "visitm"], "C12": ["compose", "rules"], "C14": ["overlap"], "C15": ["coerce"],
           "C16": ["scalars"], "C20": ["schemaval"], "C02": ["exec"], "C13": ["exec"], "C05": ["workqueue"],
           "C06": ["lifecycle"], "C17": ["schemaops"], "C18": ["schemaops"], "C19": ["schemaops"]}
 
 
 # further theorem-only files Properties/<name>.v accounted for by a check (Check.proofs(extra_files=...))
-EXTRA_PROPS = {"C04": ["C04defer"], "C11": ["C11mach"], "C12": ["C12rules"]}
+EXTRA_PROPS = {"C04": ["C04defer"], "C09": ["C09strip"], "C11": ["C11mach"], "C12": ["C12rules"]}
 
 
 def main():
